@@ -74,25 +74,35 @@ fn doc_text(top: u64, fields: &[(u64, JV)]) -> String {
     s
 }
 
+/// `top` = form + 10 * element kind; form as in `doc_text`; element kind 0 = u32, 1 = the
+/// zero-sized `()` (JSON null), 2 = Option<u8>
 pub fn emit_doc(out: &mut Out, transport: u64, top: u64, fields: &[(u64, JV)]) {
     let mut inp = vec![DBG as u64, transport, top, fields.len() as u64];
     for (k, v) in fields { inp.push(*k); v.encode(&mut inp); }
-    let text = doc_text(top, fields);
-    if out.want_sample() { out.sample(&format!("C19 transport {} document {}", transport, text)); }
+    let (form, ek) = (top % 10, top / 10);
+    let text = doc_text(form, fields);
+    if out.want_sample() { out.sample(&format!("C19 transport {} element kind {} document {}", transport, ek, text)); }
     out.begin(19, 7, &inp);
-    let res = catch_unwind(AssertUnwindSafe(|| -> Result<TooDee<u32>, String> {
+    fn de<T: serde::de::DeserializeOwned>(transport: u64, text: &str) -> Result<TooDee<T>, String> {
         match transport {
-            0 => serde_json::from_str(&text).map_err(|e| e.to_string()),
-            1 => { let v: serde_json::Value = serde_json::from_str(&text).map_err(|e| e.to_string())?; serde_json::from_value(v).map_err(|e| e.to_string()) }
+            0 => serde_json::from_str(text).map_err(|e| e.to_string()),
+            1 => { let v: serde_json::Value = serde_json::from_str(text).map_err(|e| e.to_string())?; serde_json::from_value(v).map_err(|e| e.to_string()) }
             2 => serde_json::from_slice(text.as_bytes()).map_err(|e| e.to_string()),
             _ => serde_json::from_reader(text.as_bytes()).map_err(|e| e.to_string()),
         }
-    }));
+    }
     let mut obs = vec![];
+    let res = catch_unwind(AssertUnwindSafe(|| -> Result<(u64, u64, Vec<u64>), String> {
+        match ek {
+            0 => de::<u32>(transport, &text).map(|t| (t.num_cols() as u64, t.num_rows() as u64, t.data().iter().map(|x| *x as u64).collect())),
+            1 => de::<()>(transport, &text).map(|t| (t.num_cols() as u64, t.num_rows() as u64, t.data().iter().map(|_| 0u64).collect())),
+            _ => de::<Option<u8>>(transport, &text).map(|t| (t.num_cols() as u64, t.num_rows() as u64, t.data().iter().map(|x| match x { None => 0, Some(v) => 1 + *v as u64 }).collect())),
+        }
+    }));
     match res {
         Err(_) => obs.push(2),
         Ok(Err(_)) => obs.push(0),
-        Ok(Ok(t)) => { obs.extend([1, t.num_cols() as u64, t.num_rows() as u64, t.data().len() as u64]); obs.extend(t.data().iter().map(|x| *x as u64)); }
+        Ok(Ok((c, r, d))) => { obs.extend([1, c, r, d.len() as u64]); obs.extend(d); }
     }
     out.end(&obs);
 }
@@ -158,6 +168,25 @@ pub fn gen_c19(out: &mut Out, tier: &str, rng: &mut Rng) {
         for tr in [0, 1] { emit_doc(out, tr, 1, &[(0, JV::UInt(2)), (1, JV::UInt(2)), (2, JV::Arr(l.clone()))]); }
     } }
     for d in &dimvals { for tr in [0, 1] { emit_doc(out, tr, 1, &[(0, JV::UInt(0)), (1, JV::UInt(0)), (2, d.clone())]); } }
+    // (e) other element types: the zero-sized () (null) and Option<u8> (null or a byte)
+    for ek in [1u64, 2] {
+        let elem = |i: u64| if ek == 1 || i % 3 == 0 { JV::Null } else { JV::UInt(i % 200) };
+        let arr_e = |n: u64| JV::Arr((0..n).map(elem).collect());
+        for (c, r) in [(0u64, 0u64), (1, 1), (2, 3), (3, 2), (1, 5), (0, 2), (2, 0), (1 << 32, 1 << 32), (u64::MAX, 1), (1 << 63, 2), (8, 8)] {
+            let p = (c as u128 * r as u128).min(70) as u64;
+            for l in [p, p + 1, p.saturating_sub(1), 0] {
+                for tr in 0..4 {
+                    emit_doc(out, tr, 1 + 10 * ek, &[(2, arr_e(l)), (1, JV::UInt(r)), (0, JV::UInt(c))]);
+                    emit_doc(out, tr, 1 + 10 * ek, &[(0, JV::UInt(c)), (1, JV::UInt(r)), (2, arr_e(l))]);
+                    if tr != 3 { emit_doc(out, tr, 2 + 10 * ek, &[(2, arr_e(l)), (1, JV::UInt(r)), (0, JV::UInt(c))]); }
+                }
+            }
+        }
+        for e in &bad_elems { for tr in [0, 1] {
+            emit_doc(out, tr, 1 + 10 * ek, &[(0, JV::UInt(2)), (1, JV::UInt(1)), (2, JV::Arr(vec![elem(0), e.clone()]))]);
+        } }
+        for tr in 0..4 { emit_doc(out, tr, 1 + 10 * ek, &[(0, JV::UInt(2))]); emit_doc(out, tr, 10 * ek, &[]); }
+    }
     // (d) random documents
     let n = if tier == "quick" { 4000 } else { 100000 };
     for _ in 0..n {
